@@ -14,11 +14,11 @@ import (
 type kase struct {
 	Space   string `json:"space"`
 	Idx     int64  `json:"idx"`
-	Mode    string `json:"mode"`             // load | read | readload | readload-accepted
-	Limits  string `json:"limits"`           // fuzz | sweep | none
-	Fn      string `json:"fn,omitempty"`     // the registered callable under test, if any
+	Mode    string `json:"mode"`              // load | read | readload | readload-accepted
+	Limits  string `json:"limits"`            // fuzz | sweep | none
+	Fn      string `json:"fn,omitempty"`      // the registered callable under test, if any
 	Stratum string `json:"stratum,omitempty"` // which enumeration stratum produced it
-	Pre     string `json:"pre,omitempty"`    // definitions evaluated before Src (same runtime)
+	Pre     string `json:"pre,omitempty"`     // definitions evaluated before Src (same runtime)
 	Src     string `json:"src"`
 	B64     bool   `json:"b64,omitempty"` // Src is base64 (the text is not valid UTF-8)
 }
